@@ -189,7 +189,46 @@ def t_demorgan(func):
     return done
 
 
+def t_condition_extract(func):
+    '''if <cond>: ...  ->  cond_tw<k> = <cond>; if cond_tw<k>: ...   (plain
+    `if`, not `elif`; conditions without walrus).'''
+    counter = [0]
+
+    def rewrite(body):
+        out = []
+        for stmt in body:
+            for fld in ('body', 'orelse', 'finalbody'):
+                sub = getattr(stmt, fld, None)
+                if isinstance(sub, list) and sub and isinstance(
+                        sub[0], ast.stmt) and not isinstance(
+                            stmt, (ast.FunctionDef, ast.AsyncFunctionDef,
+                                   ast.ClassDef)):
+                    if fld == 'orelse' and isinstance(stmt, ast.If) and \
+                            len(sub) == 1 and isinstance(sub[0], ast.If):
+                        # elif chain: only rewrite inside its blocks
+                        sub[0].body = rewrite(sub[0].body)
+                        continue
+                    setattr(stmt, fld, rewrite(sub))
+            for hdl in getattr(stmt, 'handlers', []) or []:
+                hdl.body = rewrite(hdl.body)
+            if isinstance(stmt, ast.If) and not isinstance(
+                    stmt.test, (ast.Name, ast.Constant)) and not any(
+                        isinstance(n, (ast.NamedExpr, ast.Yield, ast.Await))
+                        for n in ast.walk(stmt.test)):
+                counter[0] += 1
+                name = f'cond_tw{counter[0]}'
+                out.append(ast.Assign(
+                    targets=[ast.Name(id=name, ctx=ast.Store())],
+                    value=stmt.test, lineno=stmt.lineno))
+                stmt.test = ast.Name(id=name, ctx=ast.Load())
+            out.append(stmt)
+        return out
+    func.body = rewrite(func.body)
+    return counter[0] > 0
+
+
 TRANSFORMS = {
+    'condition-extract': t_condition_extract,
     'return-extract': t_return_extract,
     'de-morgan': t_demorgan,
     'rename-locals': t_rename_locals,
